@@ -271,6 +271,33 @@ def cfg_scan_text(text):
     return hits
 
 
+MUTATING = re.compile(
+    r"(?<![=!<>+\-*/%&|^])=(?!=)|\+=|-=|\*=|/=|%=|<<=|>>=|&=|\|=|\^=|&\s*mut\b|"
+    r"\.(next|next_back|nth|push|push_str|pop|insert|remove|take|replace|swap|set|advance|read|write|drain|clear|"
+    r"truncate|fill|sort|reverse|extend|append|retain|dedup|get_mut|as_mut|iter_mut|borrow_mut|lock|fetch_\w+|store|"
+    r"\w+_assign)\s*\(")
+
+
+def debug_assert_args(text):
+    """-> [(line, argument text)] of every debug_assert*! invocation (comments/strings removed)"""
+    code = strip_comments_and_strings(text)
+    out = []
+    for m in re.finditer(r"\bdebug_assert(?:_eq|_ne)?\s*!\s*([(\[{])", code):
+        open_ch = m.group(1)
+        close_ch = {"(": ")", "[": "]", "{": "}"}[open_ch]
+        depth, i = 0, m.end() - 1
+        while i < len(code):
+            if code[i] == open_ch:
+                depth += 1
+            elif code[i] == close_ch:
+                depth -= 1
+                if depth == 0:
+                    break
+            i += 1
+        out.append((code.count("\n", 0, m.start()) + 1, code[m.end():i]))
+    return out
+
+
 def s_cfg(report, label):
     files = [p for p in C.source_files() if p.endswith(".rs")]
     # positive control: the scanner must find a planted use
@@ -289,8 +316,29 @@ def s_cfg(report, label):
                              "profile-conditional code: `debug_assertions`/`overflow_checks` used as a cfg in %s; "
                              "a call that returns normally could then return different values per profile" % rel,
                              {"file": rel, "line": ln})
-    # Cargo profile overrides in the manifest would also change semantics per profile
+    # debug-only code must not have side effects: the arguments of debug_assert*! are evaluated only under
+    # debug assertions, so an assignment / mutating call inside them makes returned values profile-dependent
+    planted2 = "fn f(it: &mut I) { debug_assert!(it.next().is_some()); debug_assert!(a == b, \"x = {}\", 1); }"
+    pa = [bool(MUTATING.search(a)) for (_l, a) in debug_assert_args(planted2)]
+    if pa != [True, False]:
+        from .run_a import EngineError
+        raise EngineError("S-cfg debug_assert-argument self-test failed: %r" % pa)
+    nargs = 0
+    for p in files:
+        with open(p) as fh:
+            txt = fh.read()
+        rel = os.path.relpath(p, C.REPO)
+        for (ln, arg) in debug_assert_args(txt):
+            nargs += 1
+            mm = MUTATING.search(arg)
+            if mm:
+                total += 1
+                report.violation("S-cfg:" + label, "S-dbgarg|%s|%s" % (rel, re.sub(r"\s+", " ", arg.strip())[:80]),
+                                 "side effect (`%s`) inside the argument of a debug_assert in %s: it is evaluated only "
+                                 "under debug assertions, so the two build profiles compute different values" % (
+                                     mm.group(0).strip(), rel), {"file": rel, "line": ln})
     return {"engine": "S-cfg (token scan of src/**/*.rs and build.rs outside comments/strings)",
+            "debug_assert_invocations_checked": nargs,
             "files_scanned": len(files), "cfg_uses_found": total, "positive_control": "found",
             "samples": [{"file": os.path.relpath(p, C.REPO)} for p in files[:3]]}
 
